@@ -1,6 +1,6 @@
 """C19 — printing filters show exactly what the requested levels allow."""
 from common import freephil, enc, call_j, attr_j
-from props import _lay
+from props import _lay, _fetch
 
 LEVEL = "proof"
 MODULE = "Phil.Props.C19"
@@ -10,6 +10,11 @@ TECHNIQUE = 'Lean 4 theorems on the printer model (expert gate = prune, closed f
 RULE = ("layout-grammar trees with expert levels (unset, 0..4) on scopes and definitions at any depth incl. dotted scopes and "
         "disabled objects x expert_level {None,-1,0..5} x attributes_level {0..3} x prefix {'', '  ', '# ', '!x '} x widths; "
         "non-trivial = some object carries an expert level")
+RULE += ("; impl-only stream 'reused': the same clauses on parsed objects that were USED between parsing and printing - merge masters "
+         "(.multiple scopes / definitions, nested multiples, types, expert levels) and their sources, every clause evaluated right "
+         "after parse() and again on the same objects after a cycle of calls that only read them: fetch(sources), fetch_diff, "
+         "extract, format(python_object) with >= 0 instances per .multiple scope, clone, copy; the Lean model takes texts, a used "
+         "object has no text of its own")
 ASSUMPTIONS = ["trees for this property carry no .deprecated attribute (hidden below level 3 by design, see C01)"]
 
 
@@ -97,8 +102,111 @@ def has_class(root):
     return sorted(found)
 
 
+READ_ONLY_OPS = ("fetch", "extract", "format", "clone", "fetch_diff", "fetch_default", "format_default", "copy", "inner_format")
+
+
+def work_cycle(ops, m, ss):
+    """calls of the public API that take the parsed master `m` (and the parsed sources `ss`) as receiver / argument and
+    return NEW objects; none of them is an edit of `m` or of a source.  Returns the names of the calls that completed."""
+    done = []
+
+    def step(name, f):
+        try:
+            r = f()
+        except (RuntimeError, freephil.Sorry, ValueError, TypeError, AttributeError, KeyError, IndexError):
+            return None          # refused input (e.g. a source value of the wrong type): that call did not happen
+        done.append(name)
+        return r
+
+    w = po = None
+    if "fetch" in ops:
+        w = step("fetch", lambda: m.fetch(sources=ss))
+    if w is not None and "extract" in ops:
+        po = step("extract", lambda: w.extract())
+    if po is not None and "format" in ops:
+        step("format", lambda: m.format(python_object=po))
+    if po is not None and "clone" in ops:
+        step("clone", lambda: m.clone(po))
+    if "fetch_diff" in ops:
+        step("fetch_diff", lambda: m.fetch_diff(sources=ss))
+    if "fetch_default" in ops:
+        d = step("fetch_default", lambda: m.fetch())
+        if d is not None and "format_default" in ops:
+            step("format_default", lambda: m.format(python_object=d.extract()))
+    if "copy" in ops:
+        step("copy", lambda: m.copy())
+    if po is not None and "inner_format" in ops:
+        # the same on an inner scope of the master with its part of the python object
+        for c in m.objects:
+            if c.is_scope and not c.is_disabled and not c.multiple and "." not in c.name and hasattr(po, c.name):
+                step("inner_format", lambda: c.format(python_object=getattr(po, c.name)))
+                break
+    return done
+
+
+def settings(rng, root, n):
+    mw = _lay.min_width(root)
+    out = []
+    for _ in range(n):
+        out.append((rng.choice([None, None, -1, 0, 1, 2, 3, 4, 5]), rng.choice([0, 1, 2, 3]), rng.choice(["", "  ", "# ", "!x "]),
+                    rng.choice([mw, mw + 5, 40 + mw, 79, 200])))
+    return out
+
+
+def reused(ctx, rng, i):
+    """impl-only stream: every clause on parsed objects, right after parse() and again after a cycle of read-only calls"""
+    tree, mt, srcs = _fetch.gen(rng, nested=i % 3 == 2, n_sources=rng.choice([1, 1, 2, 3]))
+    try:
+        m = freephil.parse(input_string=mt)
+        ss = [freephil.parse(input_string=s) for s in srcs]
+    except BaseException:
+        ctx.count("reused_unparseable")
+        return
+    objs = [("master", mt, m)] + [("source %d" % j, s, o) for j, (s, o) in enumerate(zip(srcs, ss))]
+    sets = {}
+    for label, text, o in objs:
+        # all four attribute levels at expert None (what clause (b) needs) plus random settings
+        sets[label] = [(None, a, "", 79) for a in (0, 1, 2, 3)] + settings(rng, o, 3)
+    case = {"master": mt, "sources": srcs}
+    fresh_bad = set()
+    for label, text, o in objs:
+        for (k, a, p, w) in sets[label]:
+            f = check(o, k, a, p, w)
+            ctx.case((mt, tuple(srcs), label, "fresh", k, a, p, w), nontrivial=".expert_level" in text)
+            if f:
+                fresh_bad.add(label)
+                ctx.fail(dict(case, object=label, after=[], expert=k, level=a, prefix=p, width=w),
+                         "[%s, fresh from parse()] %s" % (label, f), finding=has_class(o), model_violates=None)
+    ops = [o_ for o_ in READ_ONLY_OPS if rng.random() < 0.85]
+    case["ops"] = ops
+    done = work_cycle(ops, m, ss)
+    ctx.count("reused_cycle")
+    for d in done:
+        ctx.count("reused_after_" + d)
+    if any(n_.get("multiple") and n_["k"] == "s" and not n_["dis"] for n_ in tree) and "format" in done:
+        ctx.count("reused_format_multiple_scope")
+    for label, text, o in objs:
+        if label in fresh_bad:
+            continue
+        for (k, a, p, w) in sets[label]:
+            f = check(o, k, a, p, w)
+            ctx.case((mt, tuple(srcs), label, tuple(done), k, a, p, w), nontrivial=".expert_level" in text)
+            if f:
+                ctx.fail(dict(case, object=label, after=done, expert=k, level=a, prefix=p, width=w),
+                         "[%s printed again after %s] %s" % (label, "/".join(done) or "nothing", f),
+                         finding=has_class(o), model_violates=None)
+                break
+
+
 def run(ctx):
     rng = ctx.rng
+    import random
+    rng_reused = random.Random(ctx.seed * 1000003 + 19)     # own stream: the base stream stays what it was
+    for i in range(ctx.scale(300, 4000, 1000)):
+        if ctx.time_left() < 40:
+            ctx.notes.append("reused stream stopped early on time budget")
+            break
+        reused(ctx, rng_reused, i)
     n = ctx.scale(500, 15000, 3000)
     cases, reqs, impls = [], [], []
     for i in range(n):
@@ -149,6 +257,15 @@ def flush(ctx, cases, reqs, impls):
 
 def replay(payload):
     c = payload["failure"]["case"]
+    if "master" in c:
+        m = freephil.parse(input_string=c["master"])
+        ss = [freephil.parse(input_string=s) for s in c["sources"]]
+        if c["after"]:
+            work_cycle(c["ops"], m, ss)
+        o = m if c["object"] == "master" else ss[int(c["object"].split()[1])]
+        r = check(o, c["expert"], c["level"], c["prefix"], c["width"])
+        print(repr(c["master"]), c["sources"], c["object"], "after", c["after"], "->", r)
+        return r is None
     root = freephil.parse(input_string=c["text"])
     r = check(root, c["expert"], c["level"], c["prefix"], c["width"])
     print(repr(c["text"]), "->", r)
